@@ -79,14 +79,18 @@ def run(ctx):
         conv2_emit.write_all(infos, ctx.repo, GEN, ctx.write_if_changed)
         vfiles = ["Gen/Conv2_%s.v" % x for x in conv2.TYPES] + ["Gen/Conv2_zi.v", "Gen/Conv2All.v",
                                                                 "Conv/ConvThm.v", "Conv/ConvExamples.v",
-                                                                "Properties_C04.v"]
+                                                                "Properties_C04.v", "Lin/Lu2Cases.v",
+                                                                "Conv/ConvN2.v", "Properties_C04n.v"]
         ok, res = ctx.coq_obligations(vfiles)
         if not ok:
             log = getattr(ctx, "_last_coq_log", "")
-            for m in re.finditer(r'File "\./(Gen/Conv2_\w+\.v)", line (\d+)', log):
+            for m in re.finditer(r'File "\./((?:Gen/Conv2_|Conv/ConvN2)\w*\.v)", line (\d+)', log):
                 fn = lemma_at(os.path.join(vplib.COQDIR, m.group(1)), int(m.group(2)))
                 if fn:
-                    broken[fn.split("_")[0]] = "lemma %s of %s no longer proves" % (fn, m.group(1))
+                    key = fn.split("_")[0]
+                    if m.group(1).startswith("Conv/ConvN2"):
+                        key = fn[:-1] if fn.endswith("2") else fn     # stozn2 -> stozn
+                    broken[key] = "lemma %s of %s no longer proves" % (fn, m.group(1))
             if not broken:
                 broken["?"] = "Coq build of the C04 development failed: " + log[-600:]
             ctx.log("proof obligations failed:", broken)
